@@ -105,6 +105,8 @@ def run(an: Analysis, rep):
     sh = SharedRules(rep, "R06.R", "encoder re-layout and table keys (shared with C03's R03.3/R03.7): normalize -> to_code -> from_code -> normalize is a fixed point only if they hold")
     rep.run(c03.r037, an, sh)
     rep.run(c03.r033, an, sh, c03.table_class(an))
+    from . import c05
+    rep.run(c05.r053, an, SharedRules(rep, "R06.D", "docstring slot (shared with C05's R05.3): normalize -> to_code -> from_code -> normalize keeps `docstring`"))
     from . import c07
     from .json_model import find_json_functions, load_schema
     shj = SharedRules(rep, "R06.J", "JSON codec agreement (shared with C07's R07.1/R07.3): the normal form is stable through to_json_data / from_json_data")
